@@ -33,6 +33,8 @@ func init() {
 			c.run("C01-S2", "shared with C07-R5: the names shown are the names written", c07R5)
 			c.run("C01-S3", "shared with C08-R1/R2/R4: a resumed file is cut at the offset both ends proved equal, and the compression probe gives the sender's offset back", func(c *Ctx) { c08R1(c); c08R2(c); c08R4(c) })
 			c.run("C01-S7", "shared with C11-R10: the size-probing hand-shake between the encoder and the ack reader cannot stall a fault-free transfer", c11BufInit)
+			c.run("C01-S8", "shared with C11-R12: stages and the input pump run concurrently (a fault-free transfer cannot stall on a stage that was never started)", c11Launch)
+			c.run("C01-S9", "TYPESTATE: no file or connection is used after an in-line Close of the same value", noUseAfterClose)
 			c.run("C01-S6", "shared with C07-R2b: one local name per source path id (two sources with the same base name are not merged)", c07MapKey)
 		})
 }
